@@ -225,8 +225,12 @@ theorem common_fam : ∀ (n : Nat) (a b : Ty), a.Fam → b.Fam → CF cfg sfh a 
       cases b <;> (unfold Ty.Fam at hb) <;> (try exact absurd hb id) <;> simp only [] <;> (try exact tl)
       rename_i l' h'
       refine ⟨by unfold Ty.Fam; trivial, ?_, ?_⟩
-      · exact viaRecv' cfg sfh rfl (by unfold asgRecv; simp [Int.min_le_left, Int.le_max_left])
-      · exact viaRecv' cfg sfh rfl (by unfold asgRecv; simp [Int.min_le_right, Int.le_max_right])
+      · exact viaRecv' cfg sfh rfl (by
+          unfold asgRecv; simp only [Bool.and_eq_true, decide_eq_true_eq]
+          exact ⟨Fl.effLo_mono (Int.min_le_left _ _), Fl.effHi_mono (Int.le_max_left _ _)⟩)
+      · exact viaRecv' cfg sfh rfl (by
+          unfold asgRecv; simp only [Bool.and_eq_true, decide_eq_true_eq]
+          exact ⟨Fl.effLo_mono (Int.min_le_right _ _), Fl.effHi_mono (Int.le_max_right _ _)⟩)
     · -- strVal
       rename_i s
       cases b <;> (unfold Ty.Fam at hb) <;> (try exact absurd hb id) <;> simp only [] <;> (try exact tl)
